@@ -38,8 +38,10 @@ func VerifC08Rotate() {
 	nb := vf.Dur("nbskew", -1000000000000000, 0)
 	na := vf.Dur("naskew", 0, 1000000000000000)
 
+	reinit := vf.Bool("reinitialize-requested")
 	out, err := RotateRootCertificates(ctx, st, nodeenrollment.WithCertificateLifetime(life),
-		nodeenrollment.WithNotBeforeClockSkew(nb), nodeenrollment.WithNotAfterClockSkew(na))
+		nodeenrollment.WithNotBeforeClockSkew(nb), nodeenrollment.WithNotAfterClockSkew(na), nodeenrollment.WithReinitializeRoots(reinit))
+	has = vf.And(has, vf.Not(reinit)) // reinitialization discards whatever was stored: the call then behaves as on empty storage
 	vf.Assert("succeeds", err == nil)
 	if err != nil {
 		return
